@@ -1,5 +1,5 @@
 (** C16 -- Stop terminates cleanly at any moment and a restart starts fresh. *)
-From Verif Require Import Base.Prelude M1.Client M1.ClientProofs.
+From Verif Require Import Base.Prelude M1.Client M1.ClientProofs M1.ClientOwn.
 
 (** Client endpoint, class S0: after Stop has run to its end the endpoint holds no queued call, no
     outstanding request, no callback and no half-closed channel: a restart starts from the state of a
@@ -37,3 +37,34 @@ Example C16_restart_premises_met :
   let s := qrun [Start; Send 1 true; Send 2 true; Reply 1 0; Stop] (init 2 0) in
   started s = false /\ stopSig s = false /\ List.length (tr s) = 9%nat.
 Proof. vm_compute. repeat split; reflexivity. Qed.
+
+(** EVERY schedule (not only S0): callbacks do not outlive their session, a stopped endpoint holds no queued request *)
+Theorem C16_client_callbacks_die_with_their_session : forall c t ls, Forall wf_lab ls ->
+  let s := run ls (init c t) in (started s = false \/ closing s = true -> cbq s = []) /\ (started s = false -> q s = []).
+Proof. exact callbacks_die_with_their_session_S1. Qed.
+Print Assumptions C16_client_callbacks_die_with_their_session.
+
+(** EVERY schedule: a restart, at whatever moment after Stop it comes, begins with no callback, no travelling conclusion,
+    no wake-up token and an empty queue (repairs F31, F32, F35) *)
+Theorem C16_client_restart_begins_empty : forall c t ls, Forall wf_lab ls ->
+  let s := run ls (init c t) in started s = false ->
+  let s' := step Start s in
+  cbq s' = [] /\ concC s' = [] /\ q s' = [] /\ readyC s' = 0 /\ reqC s' = 0 /\ stopSig s' = false /\ handlerOn s' = true.
+Proof. exact restart_begins_empty_S1. Qed.
+Print Assumptions C16_client_restart_begins_empty.
+
+(** the callback routine of a stopped session leaves without touching anything the next session uses (repair F35) *)
+Theorem C16_client_handler_exit_touches_nothing : forall s,
+  let s' := step DeliverStop s in
+  cbq s' = cbq s /\ concC s' = concC s /\ q s' = q s /\ pend s' = pend s /\ tr s' = tr s /\ started s' = started s.
+Proof. exact handler_exit_touches_nothing. Qed.
+Print Assumptions C16_client_handler_exit_touches_nothing.
+
+(** EVERY schedule: no stray callback, no panic; the pump goroutine is never left blocked *)
+Theorem C16_client_no_stray_callback_any_schedule : forall c t ls, Forall wf_lab ls -> Forall own (tr (run ls (init c t))).
+Proof. exact own_caller_S1. Qed.
+Print Assumptions C16_client_no_stray_callback_any_schedule.
+
+Theorem C16_client_pump_not_stuck_any_schedule : forall c t ls, Forall wf_lab ls -> pumpStuck (run ls (init c t)) = false.
+Proof. exact pump_never_stuck_S1. Qed.
+Print Assumptions C16_client_pump_not_stuck_any_schedule.
